@@ -1181,6 +1181,8 @@ castexpr(struct scope *s)
 		}
 		if (t != &typevoid && !(t->prop & PROPSCALAR))
 			error(&tok.loc, "cast type must be scalar");
+		if (t != &typevoid && t->incomplete)
+			error(&tok.loc, "cast to incomplete type");
 		e = mkexpr(EXPRCAST, t, NULL);
 		e->toeval = toeval;
 		*end = e;
